@@ -24,15 +24,19 @@ fn dec(t: &[String]) -> Option<C> {
 }
 fn valid(c: &C) -> bool { c.qs.iter().all(|q| q.0 < q.1) && c.h.all_intervals().iter().all(|x| x.0 < x.1) && c.probe.0 < c.probe.1 }
 
-fn put_se<'a>(w: &mut W, it: impl Iterator<Item = &'a Iv>) {
-    let v: Vec<&Iv> = super::common::drain_mode(it, super::common::next_mode());
+fn put_se(w: &mut W, v: Vec<Iv>) {
     w.n(v.len());
     for i in v { w.n(i.start).n(i.stop); }
 }
 
 fn exec(t: &[String]) -> Option<String> {
     let c = dec(t)?;
-    let mut l = c.h.build();
+    let mut qc: Vec<u64> = c.qs.iter().flat_map(|q| [q.0, q.1]).collect();
+    qc.push(c.probe.0); qc.push(c.probe.1);
+    // the probe interval is inserted at the end: it counts for the lengths the type must hold
+    let mut all = c.h.all_intervals(); all.push((c.probe.0, c.probe.1));
+    let ty = split_flavour(t).1;
+    let mut l = AnyLapper::build_with(&c.h, ty, type_offset(ty, &all, &qc));
     let mut w = W::new();
     put_se(&mut w, l.iter());
     w.n(l.cov());
@@ -46,7 +50,7 @@ fn exec(t: &[String]) -> Option<String> {
     l.merge_overlaps();
     put_se(&mut w, l.iter());
     w.n(l.cov());
-    let mut l2 = l.clone();
+    let mut l2 = l.duplicate();
     l2.merge_overlaps();
     put_se(&mut w, l2.iter());
     l.insert(Iv { start: c.probe.0, stop: c.probe.1, val: c.probe.2 });
@@ -55,7 +59,8 @@ fn exec(t: &[String]) -> Option<String> {
     Some(w.join())
 }
 
-fn shrink(t: &[String]) -> Vec<Vec<String>> {
+fn shrink(t: &[String]) -> Vec<Vec<String>> { shrink_flavoured(t, shrink0) }
+fn shrink0(t: &[String]) -> Vec<Vec<String>> {
     let Some(c) = dec(t) else { return vec![] };
     let mut out = vec![];
     for qs in shrink_vec(&c.qs) { out.push(C { qs, ..c.clone() }); }
@@ -100,6 +105,14 @@ fn gen(rng: &mut Rng, tier: Tier) -> Vec<Case> {
         let probe = (ps, ps.saturating_add(rng.range(1, 6)).max(ps + 0), 4242);
         if probe.0 >= probe.1 { continue; }
         out.push(Case::new(if small { "boundary" } else { "random" }, enc(&C { h, qs, probe })));
+    }
+    // coordinate-type flavours: every generated (non-exhaustive) case is, half of the time, run over another instantiation of
+    // `Lapper<I, _>`; for the narrow types a far-away interval is added so that the set spans more than half of the type's range
+    for c in out.iter_mut() {
+        if c.stream == "exhaustive" { continue; }
+        let ty = gen_ltype(rng);
+        if ty == 0 { continue; }
+        if let Some(mut d) = dec(&c.input) { if rng.chance(1, 2) { spread_for_type(rng, &mut d.h, ty, false); } c.input = push_flavour(enc(&d), ty); }
     }
     out
 }
